@@ -3,6 +3,7 @@ import MosnVerif.Model.HealthFlags
 import MosnVerif.Model.HealthRegistry
 import MosnVerif.Model.HealthCheck
 import MosnVerif.Model.HealthLoop
+import MosnVerif.Model.HealthLifecycle
 namespace MosnVerif.Drive.C16
 open MosnVerif.Drive MosnVerif.Model
 
@@ -243,6 +244,102 @@ def hc (kind : String) (cu ch f0 res : String) (impl : List String) : String :=
 
 end Thresholds
 
+
+/-! ## part C: life cycle. `lc <u:h,…> <w0,w1,…> <ops> => <w0,w1,…:cb:l0,l1,…;…>` (see harness/c16/lifecycle.go) -/
+section Lifecycle
+open MosnVerif.Model.HealthLifecycle MosnVerif.Model.HealthCheck
+
+def digitVal (c : Char) : Option Nat := if '0' ≤ c ∧ c ≤ '9' then some (c.toNat - '0'.toNat) else none
+
+def parseLcOp (s : String) : Option HealthLifecycle.Op :=
+  match s.toList with
+  | 'h' :: k :: '=' :: r => do
+    let k ← digitVal k
+    let hs ← r.mapM digitVal
+    pure (.setHosts k hs)
+  | ['x', k] => (digitVal k).map .stopAll
+  | 'n' :: k :: '=' :: r =>
+    match (String.ofList r).splitOn "." with
+    | [u, h] => do
+      let k ← digitVal k
+      let u ← u.toNat?
+      let h ← h.toNat?
+      pure (.recreate k u h)
+    | _ => none
+  | ['r', k, a, c] => do
+    let k ← digitVal k
+    let a ← digitVal a
+    let r ← (match c with
+      | 's' => some Result.success
+      | 'f' => some Result.failure
+      | 't' => some Result.timeout
+      | _ => none)
+    pure (.result k a r)
+  | ['o', a, '+'] => (digitVal a).map (.outlier · true)
+  | ['o', a, '-'] => (digitVal a).map (.outlier · false)
+  | _ => none
+
+def parseLcCfg (s : String) : Option (List (Nat × Nat)) :=
+  (s.splitOn ",").mapM (fun e => match e.splitOn ":" with
+    | [u, h] => match u.toNat?, h.toNat? with
+      | some u, some h => some (u, h)
+      | _, _ => none
+    | _ => none)
+
+def lcOpOk (m n : Nat) : HealthLifecycle.Op → Bool
+  | .setHosts k hs => k < m && hs.all (· < n)
+  | .stopAll k => k < m
+  | .recreate k _ _ => k < m
+  | .result k a _ => k < m && a < n
+  | .outlier a _ => a < n
+
+def fmtCb : Option Out → String
+  | none => "-"
+  | some o => String.singleton (outDigit o)
+
+def fmtSeen (m n : Nat) (o : Seen) : String :=
+  joinWith "," ((List.range n).map (fun a => toString (o.words a).toNat)) ++ ":" ++ fmtCb o.cb ++ ":" ++
+    joinWith "," ((List.range m).map (fun k => toString (o.loc k)))
+
+/-- what the implementation showed after one operation; `none` when a word carries a condition nobody set (≥ 4), more than
+one callback was delivered, or the token is malformed -/
+def parseSeen (n : Nat) (s : String) : Option Seen :=
+  match s.splitOn ":" with
+  | [ws, cb, _] =>
+    match (ws.splitOn ",").mapM String.toNat? with
+    | some l =>
+      if l.length != n || l.any (· ≥ 4) then none else
+      let cbv : Option (Option Out) := match cb.toList with
+        | ['-'] => some none
+        | [d] => if '0' ≤ d ∧ d ≤ '7' then
+            let v := d.toNat - '0'.toNat
+            some (some ⟨decide (v / 4 = 1), decide (v / 2 % 2 = 1), decide (v % 2 = 1)⟩) else none
+        | _ => none
+      cbv.map (fun c => ⟨fun a => Word.ofNat (l.getD a 0), c, fun _ => 0⟩)
+    | none => none
+  | _ => none
+
+def lc (cfg words ops : String) (impl : List String) : String :=
+  let opl : Option (List HealthLifecycle.Op) := if ops == "-" then some [] else (ops.splitOn ",").mapM parseLcOp
+  match parseLcCfg cfg, (words.splitOn ",").mapM String.toNat?, opl, impl with
+  | some cf, some ws, some opl, [tr] =>
+    let m := cf.length
+    let n := ws.length
+    if ws.any (· ≥ 4) || !opl.all (lcOpOk m n) then "E E bad-case" else
+    let cfgF : Cid → Nat × Nat := fun k => cf.getD k (1, 1)
+    let w0 : Addr → Word := fun a => Word.ofNat (ws.getD a 0)
+    let mt := trace (World.init cfgF w0) opl
+    let model := if mt.isEmpty then "-" else joinWith ";" (mt.map (fmtSeen m n))
+    let agree := model == tr
+    let seen : Option (List Seen) := if tr == "-" then some [] else (tr.splitOn ";").mapM (parseSeen n)
+    let holdsB : Bool := match seen with
+      | some sn => holds n cfgF w0 opl sn
+      | none => false
+    s!"{if agree then "A" else "D"} {if holdsB then "S" else "V"} {model}"
+  | _, _, _, _ => "E E bad-case"
+
+end Lifecycle
+
 def run (caseToks impl : List String) : String :=
   match caseToks with
   | ["fl", init, ops, sched] => fl init ops sched impl
@@ -250,6 +347,7 @@ def run (caseToks impl : List String) : String :=
   | ["ps", pre, th, _] => alloc pre th none impl
   | ["hc", u, h, f0, res] => hc "hc" u h f0 res impl
   | ["hd", u, h, f0, res] => hc "hd" u h f0 res impl
+  | ["lc", cfg, words, ops] => lc cfg words ops impl
   | _ => "E E unknown-kind"
 
 end MosnVerif.Drive.C16
